@@ -51,6 +51,10 @@ def extra_files():
     cjk = ['日本語日本語日本語', '😀😀😀😀', '語語語']   # UTF-8 size more than twice the character count
     hx = [x.encode('utf-8').hex() for x in cjk]
     out.append(('strings/multibyte', [G.seg([(A, ['FULL', 'String', len(cjk), sum(len(x) // 2 for x in hx), hx]), (B, ['FULL', 'Int8', 1])], chunks=2)]))
+    for t in ('Int16', 'Int32', 'DoubleFloat', 'SingleFloat', 'Uint64', 'ComplexDoubleFloat', 'TimeStamp', 'String'):
+        e = ['FULL', 'String', 2, 5] if t == 'String' else ['FULL', t, 2]
+        out.append(('big-endian/single-chunk/' + t, [G.seg([(A, e), (B, ['FULL', 'Int8', 1])], chunks=1, big=True)]))
+        out.append(('big-endian/two-chunks/' + t, [G.seg([(A, e), (B, ['FULL', 'Int8', 1])], chunks=2, big=True), G.seg([(A, e)], big=False)]))
     out.append(('names/quotes', [G.seg([("/'it''s'/'a/b'", ['FULL', 'Int16', 2]), ("/'it''s'/''", ['FULL', 'Int16', 1])])]))
     out.append(('mixed-endian-ts', [G.seg([(A, ['FULL', 'TimeStamp', 2])], big=True), G.seg([(A, ['FULL', 'TimeStamp', 2])])]))
     return out
